@@ -62,6 +62,11 @@ def gen_cases(rng, tier):
     for perm in itertools.permutations([U32 - 2, U32 - 1, U32]):
         cases.append(["lim%d" % n, "c10", "S:%d:1" % (U32 - 3), ",".join(_recv(0, c, "r%d" % i) for i, c in enumerate(perm))])
         n += 1
+    # a dialog whose creating request already sits at (or one below) the integer limit: the ACK carries that number
+    for base, evs in ((U32, [("a", U32)]), (U32 - 1, [("a", U32 - 1), ("r", U32)]), (U32 - 1, [("r", U32), ("a", U32 - 1)]),
+                      (U32, [("a", U32), ("a", U32)]), (U32 - 2, [("r", U32), ("a", U32 - 2), ("r", U32 - 1)])):
+        cases.append(["lim%d" % n, "c10", "S:%d:1" % base, ",".join(_recv(0, c, "r%d" % i, ack=1 if k == "a" else 0) for i, (k, c) in enumerate(evs))])
+        n += 1
     # random mixed histories
     nrand = 250 if tier == "quick" else 6000
     for i in range(nrand):
